@@ -199,11 +199,13 @@ func (c *Conn) readLoop(ctx context.Context) (header, error) {
 		}
 
 		if !c.client && !h.masked {
-			return header{}, errors.New("received unmasked frame from client")
+			c.readErr = errors.New("received unmasked frame from client")
+			return header{}, c.readErr
 		}
 
 		if c.client && h.masked {
-			return header{}, errors.New("received masked frame from server")
+			c.readErr = errors.New("received masked frame from server")
+			return header{}, c.readErr
 		}
 
 		switch h.opcode {
@@ -357,6 +359,10 @@ func (c *Conn) reader(ctx context.Context) (_ MessageType, _ io.Reader, err erro
 	}
 	defer c.readMu.unlock()
 
+	if c.readErr != nil {
+		return 0, nil, c.readErr
+	}
+
 	if !c.msgReader.fin {
 		return 0, nil, errors.New("previous message not read to completion")
 	}
@@ -428,6 +434,10 @@ func (mr *msgReader) Read(p []byte) (n int, err error) {
 		// The message has been read to completion and its flate reader was
 		// returned to the pool where another connection may have picked it up.
 		return 0, io.EOF
+	}
+
+	if mr.c.readErr != nil {
+		return 0, fmt.Errorf("failed to read: %w", mr.c.readErr)
 	}
 
 	mr.reading = true
